@@ -127,3 +127,11 @@ CHECKS["C12"] = {
     "note": "Trusted: json, dataclasses. Declined: `primary_key lists names of that table's columns` (value-level). Reviewed exception: prepare_alter_columns may append a reference-only record for an ALTER naming an unknown column (ill-formed DDL).",
 }
 NOT_APPLICABLE.pop("C12", None)
+CHECKS["C19"] = {
+    "engine": "E5 rules (T-PASS, T-CLI, T-FILE) on E1",
+    "technique": "argument pass-through / call-site shape analysis of the file, dump and CLI plumbing; file-effect reachability",
+    "text": "Narrow, code-shaped claim: the path and encoding reach open(), the decoded content and parser_settings reach the constructor, file_path and the remaining keywords reach run() whose result is returned unchanged and without caching; files are written only under `if dump`, the dumped object is the result structure before the optional JSON encoding, the file is <dump_path>/<base name>_schema.json written by json.dump; the CLI flags map to dump / dump_path / output_mode with the right polarity and defaults, a file argument calls the API once and a directory argument once per file whose last extension is accepted.",
+    "design_ref": "DESIGN.md section 4 C19",
+    "note": "Declined: encodings, file-system states and the run-time equality of file content and result (I/O behaviour). Trusted: argparse, json, open().",
+}
+NOT_APPLICABLE.pop("C19", None)
